@@ -142,7 +142,7 @@ def run(res):
                                           {"case": l, "implementation": r[:300], "canonical": c.canon, "profile": prof, "src": c.src})
     stats["protocol"] = protocol_correspondence(res, rng, driver, hv, 600 if res.tier == "quick" else 20000)
     exc.sort()
-    res.coverage["theorems"] = ["C06_protocol_safe", "C09_tape_refines", "C09_raw_in_bounds", "C11_cells_in_window"]
+    res.coverage["theorems"] = ["C06_protocol_safe", "C06_jit_slow_path", "C03_mov_template", "C09_tape_refines", "C09_raw_in_bounds", "C11_cells_in_window"]
     res.coverage.update({
         "evaluations": stats["runs"],
         "distinct_nontrivial": len(set(c.key() for c in H if c.meta["exc"][1] - c.meta["exc"][0] >= 8)),
